@@ -278,6 +278,30 @@ func langCheck(prop, tier string) int {
 		}
 		ev.Fatal("shard %v keeps crashing", sh)
 	})
+	if prop == "C08" {
+		if f := os.Getenv("VERIF_C08_SCHED"); f != "" {
+			var sp struct {
+				Inputs   int64          `json:"inputs"`
+				Execs    int64          `json:"execs"`
+				States   int64          `json:"states"`
+				MaxSched int64          `json:"max_schedules_per_input"`
+				Leaky    int64          `json:"inputs_leaving_the_lexer_goroutine_blocked"`
+				Viol     []ev.Violation `json:"viol"`
+			}
+			data, err := os.ReadFile(f)
+			if err != nil || json.Unmarshal(data, &sp) != nil {
+				ev.Fatal("C08 schedule part result unreadable: %v", err)
+			}
+			for _, v := range sp.Viol {
+				run.Report(v)
+			}
+			run.Set("schedule_part", map[string]any{"inputs": sp.Inputs, "schedules_explored": sp.Execs, "scheduler_states": sp.States, "max_schedules_per_input": sp.MaxSched,
+				"inputs_leaving_the_lexer_goroutine_blocked_after_the_parse_returned": sp.Leaky,
+				"what": "every string of <=3 (thorough 4) alphabet symbols and a few structured inputs parsed under EVERY interleaving of lexer goroutine and parser (controlled scheduler over the mechanically rewritten lexer): no deadlock, livelock or panic, and one result per input over all schedules"})
+			total.Inputs += sp.Inputs
+			total.Tokens += sp.Execs
+		}
+	}
 	for _, s := range total.Samples {
 		run.Sample(s)
 	}
